@@ -71,6 +71,9 @@ func discharge(ob *Obligation, dir string, idx int, timeoutS int, cross bool) {
 	if ob.Trivial {
 		return
 	}
+	if ob.TimeoutS > timeoutS {
+		timeoutS = ob.TimeoutS
+	}
 	// stage 0: without quantified hypotheses (a sound weakening; most goals do not need them)
 	var qf []*Term
 	nq := 0
@@ -84,11 +87,7 @@ func discharge(ob *Obligation, dir string, idx int, timeoutS int, cross bool) {
 	if nq > 0 && !strings.HasPrefix(ob.Kind, "cover") {
 		file0 := filepath.Join(dir, fmt.Sprintf("o%05d.qf.smt2", idx))
 		if err := os.WriteFile(file0, []byte(ob.ctx.Script(qf, false)), 0o644); err == nil {
-			t := timeoutS
-			if t > 10 {
-				t = 10
-			}
-			r0 := runSolver(solvers[0], file0, t)
+			r0 := runSolver(solvers[0], file0, timeoutS)
 			atomic.AddInt64(&solverSeconds, r0.ms)
 			os.Remove(file0)
 			if r0.res == "unsat" {
